@@ -42,6 +42,13 @@ def main(argv=None):
         code = run_check(args.pid, mod.run, args.tier)
         if args.tier == "thorough" and code == 0 and hasattr(mod, "thorough_extra"):
             code = mod.thorough_extra(args.pid)
+        if args.tier == "thorough" and code == 0 and os.environ.get("PGVERIF_NO_SELFTEST") != "1":
+            # the checker itself, both ways: silent on behaviour-preserving rewrites of today's tree, firing on every recorded
+            # breaking change of this property.  A failure here is a defect of the checker, not of the repository: exit 2.
+            from .selftest import run_selftest
+            if run_selftest([args.pid], jobs=8, verbose=True, write=False) != 0:
+                print(f"ANALYSIS-ERROR property={args.pid} self-test of the checker failed (see lines above)")
+                return 2
         return code
     if args.cmd == "selfcheck":
         from .units import ALL_UNITS
